@@ -93,38 +93,40 @@ def check(ctx):
     distinct = {}
     for rp in rets:
         distinct.setdefault(nf.key(it.to_nf(rp.value)), rp)
-    if len(distinct) != 1:
-        raise AnalysisError(f"{q}: the returning partitions produce {len(distinct)} different results (expected one)")
-    p = next(iter(distinct.values()))
-    val = it.to_nf(p.value)
-    den = nf.sub(nf.sub(nf.sub(nf.ONE, P_("S_or")), P_("S_wc")), P_("S_gc"))
-    found_phase = set()
-    for mono_atom, base_atom, expo, cofactor, wrappers in _powers(val, it):
-        ph = next((k for k, (_s, _r, n, _km) in PHASES.items() if expo == P_(n)), None)
-        if ph is None:
-            continue
-        s, r, n, km = PHASES[ph]
-        found_phase.add(ph)
-        where = f.where()
-        # clamp to [0,1] before the power
-        lo, hi, inner = _clamp_of(base_atom)
-        okc = lo is not None and hi is not None and lo >= 0 and hi <= 1
-        ctx.check(
-            okc, "C14-b", q + f":k_r{ph} base clamped", where,
-            "the base of the Corey power is confined to [0, 1] by an explicit clamp before exponentiation (finite, <= k_max, exactly 0 at or below residual)",
-            signature=f"clamp [{lo},{hi}]", base=nf.show(nf.atom_poly(base_atom), 200),
-        )
-        if inner is not None:
-            want = nf.div(nf.sub(nf.fn("[]", nf.sym("saturations"), nf.sym(repr(s))), P_(r)), den)
-            ctx.identity("C14-b", q + f":k_r{ph} normalised saturation", where, f"the clamped quantity is ({s} - {r}) / (1 - S_or - S_wc - S_gc)", inner, want)
-        opaque_wrappers = [w for w in wrappers if not _transparent(w)]
-        ctx.check(
-            not opaque_wrappers, "C14-b", q + f":k_r{ph} returned as computed", where,
-            "between the Corey power and the returned record there is nothing but containers and, at most, a clamp from below at exactly 0 (no offset, no scaling, no other clamp)",
-            signature="wrapped by " + ",".join(str(w[1]) for w in opaque_wrappers)[:120], wrappers=[str(w) for w in wrappers],
-        )
-        ctx.identity("C14-b", q + f":k_r{ph} end-point", where, f"k_r{ph} == {km} * base ** {n} (ceiling is the declared maximum)", cofactor, P_(km))
-    ctx.check(found_phase == set(PHASES), "C14-b", q + ":three phases", f.where(), "oil, water and gas permeabilities are each a Corey power with their own exponent", signature="phases " + ",".join(sorted(found_phase)))
+    if not distinct:
+        raise AnalysisError(f"{q}: no returning partition")
+    # every distinct result (a type-guarded fast path next to the general one, say) has to be the Corey record
+    for idx, p in enumerate(distinct.values()):
+        vtag = "" if len(distinct) == 1 else " [" + ", ".join(("" if c else "not ") + d[:40] for _k, c, d in p.decisions[-3:]) + "]"
+        val = it.to_nf(p.value)
+        den = nf.sub(nf.sub(nf.sub(nf.ONE, P_("S_or")), P_("S_wc")), P_("S_gc"))
+        found_phase = set()
+        for mono_atom, base_atom, expo, cofactor, wrappers in _powers(val, it):
+            ph = next((k for k, (_s, _r, n, _km) in PHASES.items() if expo == P_(n)), None)
+            if ph is None:
+                continue
+            s, r, n, km = PHASES[ph]
+            found_phase.add(ph)
+            where = f.where()
+            # clamp to [0,1] before the power
+            lo, hi, inner = _clamp_of(base_atom)
+            okc = lo is not None and hi is not None and lo >= 0 and hi <= 1
+            ctx.check(
+                okc, "C14-b", q + f":k_r{ph} base clamped" + vtag, where,
+                "the base of the Corey power is confined to [0, 1] by an explicit clamp before exponentiation (finite, <= k_max, exactly 0 at or below residual)",
+                signature=f"clamp [{lo},{hi}]", base=nf.show(nf.atom_poly(base_atom), 200),
+            )
+            if inner is not None:
+                want = nf.div(nf.sub(nf.fn("[]", nf.sym("saturations"), nf.sym(repr(s))), P_(r)), den)
+                ctx.identity("C14-b", q + f":k_r{ph} normalised saturation" + vtag, where, f"the clamped quantity is ({s} - {r}) / (1 - S_or - S_wc - S_gc)", inner, want)
+            opaque_wrappers = [w for w in wrappers if not _transparent(w)]
+            ctx.check(
+                not opaque_wrappers, "C14-b", q + f":k_r{ph} returned as computed" + vtag, where,
+                "between the Corey power and the returned record there is nothing but containers and, at most, a clamp from below at exactly 0 (no offset, no scaling, no other clamp)",
+                signature="wrapped by " + ",".join(str(w[1]) for w in opaque_wrappers)[:120], wrappers=[str(w) for w in wrappers],
+            )
+            ctx.identity("C14-b", q + f":k_r{ph} end-point" + vtag, where, f"k_r{ph} == {km} * base ** {n} (ceiling is the declared maximum)", cofactor, P_(km))
+        ctx.check(found_phase == set(PHASES), "C14-b", q + ":three phases" + vtag, f.where(), "oil, water and gas permeabilities are each a Corey power with their own exponent", signature="phases " + ",".join(sorted(found_phase)))
 
     # ---- C14-d two-phase helper
     q2 = FP + "relative_permeabilities_twophase"
